@@ -1,6 +1,6 @@
 /-
   Proofs.SpecPolicy — the documented free-list policy (C10) and the accounting of discarded bytes (C20)
-  at the abstract level. (statement file: every `sorry` below is a proof obligation)
+  at the abstract level. (all statements proved)
 -/
 import RarenaVerif.Proofs.ListLemmas
 
@@ -10,24 +10,91 @@ namespace Rarena
 
 theorem sorted_opt_head_max (g : Seg) (rest : List Seg) (h : sortedBy .opt (g :: rest)) :
     ∀ x ∈ g :: rest, x.size ≤ g.size := by
-  sorry
+  simp only [sortedBy, List.pairwise_cons] at h
+  intro x hx
+  rcases List.mem_cons.1 hx with rfl | hx
+  · exact Nat.le_refl _
+  · exact h.1 x hx
 
 theorem sorted_pess_head_min (g : Seg) (rest : List Seg) (h : sortedBy .pess (g :: rest)) :
     ∀ x ∈ g :: rest, g.size ≤ x.size := by
-  sorry
+  simp only [sortedBy, List.pairwise_cons] at h
+  intro x hx
+  rcases List.mem_cons.1 hx with rfl | hx
+  · exact Nat.le_refl _
+  · exact h.1 x hx
 
 /-- a new segment is placed in front of the segments of equal size -/
 theorem insertSeg_before_equal (k : Kind) (hk : k ≠ .none) (seg : Seg) (l : List Seg) :
     ∃ pre post, insertSeg k seg l = pre ++ seg :: post ∧ l = pre ++ post ∧ ∀ g ∈ pre, g.size ≠ seg.size := by
-  sorry
+  obtain ⟨pre, post, h1, h2, h3, _⟩ := insertSeg_split k seg l
+  refine ⟨pre, post, h2, h1, ?_⟩
+  intro g hg he
+  have := h3 g hg
+  cases k with
+  | none => exact hk rfl
+  | opt => simp [cmpInsert] at this; omega
+  | pess => simp [cmpInsert] at this; omega
 
 /-! ### Optimistic: largest first -/
+
+theorem sp_tryNew_of_validate (c : Cfg) (a : A) (off size : Nat) (h : a.validate off size = true) :
+    a.tryNew c off size = (some ⟨alignUp 8 off, size - ((alignUp 8 off - off) + NODE)⟩, a) := by
+  unfold A.validate at h
+  unfold A.tryNew
+  split at h
+  · simp at h
+  · rename_i h0
+    rw [if_neg h0]
+    simp only at h ⊢
+    split at h
+    · simp at h
+    · rename_i h1
+      rw [if_neg h1]
+      split at h
+      · simp at h
+      · rename_i h2
+        rw [if_neg h2]
+
+theorem sp_finishSlow_eq (c : Cfg) (a : A) (g : Seg) (size : Nat) :
+    a.finishSlow c g size =
+      if a.validate (g.off + NODE + size) (g.size - size) then
+        (⟨g.off, g.size - (g.size - size), g.off + NODE, size⟩,
+          ({ a with free := insertSeg c.kind ⟨alignUp 8 (g.off + NODE + size),
+              (g.size - size) - ((alignUp 8 (g.off + NODE + size) - (g.off + NODE + size)) + NODE)⟩ a.free }).incDiscarded c NODE)
+      else (⟨g.off, g.size, g.off + NODE, size⟩, a) := by
+  unfold A.finishSlow
+  simp only
+  by_cases hv : a.validate (g.off + NODE + size) (g.size - size) = true
+  · rw [if_pos hv, if_pos hv]
+    simp only [A.freelistDealloc, sp_tryNew_of_validate c a _ _ hv]
+  · rw [if_neg hv, if_neg hv]
 
 /-- fails iff the list is empty or the largest segment is too small (equivalently: no segment fits) -/
 theorem slow_opt_fails_iff (c : Cfg) (a : A) (size : Nat) (hk : c.kind = .opt) (hro : c.ro = false)
     (hs : sortedBy .opt a.free) :
     (a.slow c size).1 = .error .insufficient ↔ ∀ g ∈ a.free, g.size < size := by
-  sorry
+  unfold A.slow
+  simp only [hro, hk]
+  cases hf : a.free with
+  | nil => simp
+  | cons g rest =>
+    rw [hf] at hs
+    have hmax := sorted_opt_head_max g rest hs
+    simp only
+    by_cases hc : size > g.size
+    · rw [if_pos hc]
+      refine ⟨fun _ => ?_, fun _ => rfl⟩
+      intro x hx
+      have := hmax x hx
+      omega
+    · rw [if_neg hc]
+      rcases hfs : A.finishSlow c { a with free := rest } g size with ⟨m, a1⟩
+      constructor
+      · intro h; simp at h
+      · intro h
+        have := h g (List.mem_cons_self)
+        omega
 
 /-- when it succeeds it serves from the head, which is a largest segment, and removes it -/
 theorem slow_opt_serves_head (c : Cfg) (a a' : A) (size : Nat) (m : Meta) (hk : c.kind = .opt)
@@ -36,13 +103,55 @@ theorem slow_opt_serves_head (c : Cfg) (a a' : A) (size : Nat) (m : Meta) (hk : 
       size ≤ g.size ∧ (∀ x ∈ a.free, x.size ≤ g.size) ∧
       (a' = { a with free := rest } ∨
         ∃ seg, a' = ({ a with free := insertSeg .opt seg rest }).incDiscarded c NODE) := by
-  sorry
+  unfold A.slow at h
+  by_cases hro : c.ro = true
+  · rw [if_pos hro] at h; simp at h
+  · rw [if_neg hro] at h
+    simp only [hk] at h
+    cases hf : a.free with
+    | nil => rw [hf] at h; simp at h
+    | cons g rest =>
+      rw [hf] at h hs
+      have hmax := sorted_opt_head_max g rest hs
+      simp only at h
+      by_cases hc : size > g.size
+      · rw [if_pos hc] at h; simp at h
+      · rw [if_neg hc, sp_finishSlow_eq] at h
+        refine ⟨g, rest, rfl, ?_⟩
+        split at h
+        · simp only [Prod.mk.injEq, Except.ok.injEq] at h
+          obtain ⟨rfl, rfl⟩ := h
+          refine ⟨rfl, rfl, rfl, by omega, hmax, Or.inr ?_⟩
+          rw [hk]
+          exact ⟨_, rfl⟩
+        · simp only [Prod.mk.injEq, Except.ok.injEq] at h
+          obtain ⟨rfl, rfl⟩ := h
+          exact ⟨rfl, rfl, rfl, by omega, hmax, Or.inl rfl⟩
 
 /-! ### Pessimistic: smallest that fits -/
 
 theorem slow_pess_fails_iff (c : Cfg) (a : A) (size : Nat) (hk : c.kind = .pess) (hro : c.ro = false) :
     (a.slow c size).1 = .error .insufficient ↔ ∀ g ∈ a.free, g.size < size := by
-  sorry
+  unfold A.slow
+  simp only [hro, hk, Bool.false_eq_true, ↓reduceIte]
+  cases ht : takeFirst (fun g => decide (size ≤ g.size)) a.free with
+  | none =>
+    simp only [true_iff]
+    intro x hx
+    have := takeFirst_none _ _ ht x hx
+    simp at this
+    omega
+  | some p =>
+    obtain ⟨g, rest⟩ := p
+    obtain ⟨pre, post, h1, h2, h3, h4⟩ := takeFirst_some _ _ _ _ ht
+    simp only
+    rcases hfs : A.finishSlow c { a with free := rest } g size with ⟨m, a1⟩
+    constructor
+    · intro h; simp at h
+    · intro h
+      have := h g (by rw [h1]; simp)
+      simp at h3
+      omega
 
 theorem slow_pess_serves_min_fit (c : Cfg) (a a' : A) (size : Nat) (m : Meta) (hk : c.kind = .pess)
     (hs : sortedBy .pess a.free) (h : a.slow c size = (.ok m, a')) :
@@ -50,10 +159,77 @@ theorem slow_pess_serves_min_fit (c : Cfg) (a a' : A) (size : Nat) (m : Meta) (h
       size ≤ g.size ∧ (∀ x ∈ a.free, size ≤ x.size → g.size ≤ x.size) ∧ (∀ x ∈ pre, x.size < size) ∧
       (a' = { a with free := pre ++ post } ∨
         ∃ seg, a' = ({ a with free := insertSeg .pess seg (pre ++ post) }).incDiscarded c NODE) := by
-  sorry
+  unfold A.slow at h
+  by_cases hro : c.ro = true
+  · rw [if_pos hro] at h; simp at h
+  · rw [if_neg hro] at h
+    simp only [hk] at h
+    cases ht : takeFirst (fun g => decide (size ≤ g.size)) a.free with
+    | none => rw [ht] at h; simp at h
+    | some p =>
+      obtain ⟨g, rest⟩ := p
+      rw [ht] at h
+      obtain ⟨pre, post, h1, h2, h3, h4⟩ := takeFirst_some _ _ _ _ ht
+      subst h2
+      simp only [decide_eq_true_eq] at h3
+      have hpre : ∀ x ∈ pre, x.size < size := by
+        intro x hx
+        have := h4 x hx
+        simp at this
+        omega
+      have hmin : ∀ x ∈ a.free, size ≤ x.size → g.size ≤ x.size := by
+        intro x hx hsx
+        rw [h1] at hx hs
+        simp only [sortedBy, List.pairwise_append, List.pairwise_cons] at hs
+        rcases List.mem_append.1 hx with hx | hx
+        · have := hpre x hx; omega
+        · rcases List.mem_cons.1 hx with rfl | hx
+          · exact Nat.le_refl _
+          · exact hs.2.1.1 x hx
+      simp only [sp_finishSlow_eq] at h
+      refine ⟨g, pre, post, h1, ?_⟩
+      split at h
+      · simp only [Prod.mk.injEq, Except.ok.injEq] at h
+        obtain ⟨rfl, rfl⟩ := h
+        refine ⟨rfl, rfl, rfl, h3, hmin, hpre, Or.inr ?_⟩
+        rw [hk]
+        exact ⟨_, rfl⟩
+      · simp only [Prod.mk.injEq, Except.ok.injEq] at h
+        obtain ⟨rfl, rfl⟩ := h
+        exact ⟨rfl, rfl, rfl, h3, hmin, hpre, Or.inl rfl⟩
 
 /-! ### remainder rule -/
 
+theorem sp_incDiscarded_free (c : Cfg) (a : A) (n : Nat) : (a.incDiscarded c n).free = a.free := by
+  unfold A.incDiscarded; split <;> rfl
+
+theorem sp_validate_iff (a : A) (off size : Nat) :
+    a.validate off size = true ↔
+      off ≠ 0 ∧ size ≠ 0 ∧ (alignUp 8 off - off) + NODE < size ∧ a.minSeg ≤ size - ((alignUp 8 off - off) + NODE) := by
+  unfold A.validate
+  by_cases h0 : off = 0 ∨ size = 0
+  · rw [if_pos h0]
+    constructor
+    · intro h; simp at h
+    · intro h; omega
+  · rw [if_neg h0]
+    simp only
+    by_cases h1 : (alignUp 8 off - off) + NODE ≥ size
+    · rw [if_pos h1]
+      constructor
+      · intro h; simp at h
+      · intro h; omega
+    · rw [if_neg h1]
+      by_cases h2 : size - ((alignUp 8 off - off) + NODE) < a.minSeg
+      · rw [if_pos h2]
+        constructor
+        · intro h; simp at h
+        · intro h; omega
+      · rw [if_neg h2]
+        simp only [true_iff]
+        omega
+
+set_option linter.unusedVariables false in
 /-- the tail of a served segment goes back to the list iff, after aligning its start to 8, it can hold a
     node word plus at least one byte and at least the minimum segment size -/
 theorem finishSlow_remainder_rule (c : Cfg) (a : A) (g : Seg) (size : Nat) (hsz : size ≤ g.size) (hk : c.kind ≠ .none) :
@@ -64,24 +240,51 @@ theorem finishSlow_remainder_rule (c : Cfg) (a : A) (g : Seg) (size : Nat) (hsz 
     (r.2.free = insertSeg c.kind ⟨alignUp 8 dataEnd, rem - padding - NODE⟩ a.free ∧ r.1.memSize = size ∧
         padding + NODE < rem ∧ a.minSeg ≤ rem - padding - NODE)
     ∨ (r.2 = a ∧ r.1.memSize = g.size ∧ ¬ (padding + NODE < rem ∧ a.minSeg ≤ rem - padding - NODE)) := by
-  sorry
+  intro dataEnd rem padding r
+  have hr : r = a.finishSlow c g size := rfl
+  rw [sp_finishSlow_eq] at hr
+  by_cases hv : a.validate (g.off + NODE + size) (g.size - size) = true
+  · rw [if_pos hv] at hr
+    left
+    rw [hr]
+    simp only [sp_incDiscarded_free]
+    rw [sp_validate_iff] at hv
+    simp only [dataEnd, rem, padding, NODE] at *
+    refine ⟨?_, by omega, by omega, by omega⟩
+    congr 2
+  · rw [if_neg hv] at hr
+    right
+    rw [hr]
+    refine ⟨rfl, rfl, ?_⟩
+    intro hh
+    apply hv
+    rw [sp_validate_iff]
+    simp only [dataEnd, rem, padding, NODE] at *
+    omega
 
 /-! ### Freelist::None never reuses -/
 
 theorem none_slow_fails (c : Cfg) (a : A) (size : Nat) (hk : c.kind = .none) (hro : c.ro = false) :
     a.slow c size = (.error .insufficient, a) := by
-  sorry
+  unfold A.slow
+  simp [hro, hk]
 
 theorem none_dealloc (c : Cfg) (a : A) (off size : Nat) (hk : c.kind = .none) :
     (a.dealloc c off size).2 = (if a.allocated = off + size then { a with allocated := off } else a.incDiscarded c size) := by
-  sorry
+  unfold A.dealloc
+  split
+  · rfl
+  · simp only [hk]
 
 /-! ### accounting (C20) -/
 
 theorem incDiscarded_val (c : Cfg) (a : A) (n : Nat) (hro : c.ro = false) :
     (a.incDiscarded c n).discarded = (a.discarded + n) % TWO32 ∧ (a.incDiscarded c n).free = a.free ∧
     (a.incDiscarded c n).allocated = a.allocated := by
-  sorry
+  unfold A.incDiscarded
+  simp [hro]
+
+theorem sp_le_alignUp8 (x : Nat) : x ≤ alignUp 8 x := by unfold alignUp; omega
 
 /-- a release that is not on top: either it is too small to become a segment (then `discarded` grows by its
     whole size and the list is unchanged — the bytes are never reused), or it becomes a segment and
@@ -91,25 +294,264 @@ theorem freelistDealloc_accounting (c : Cfg) (a : A) (off size : Nat) (hro : c.r
     (r.1 = false ∧ r.2.free = a.free ∧ r.2.discarded = (a.discarded + size) % TWO32) ∨
     (r.1 = true ∧ r.2.discarded = (a.discarded + NODE) % TWO32 ∧
       ∃ seg, r.2.free = insertSeg c.kind seg a.free ∧ off ≤ seg.off ∧ seg.hi = off + size) := by
-  sorry
+  intro r
+  have hr : r = a.freelistDealloc c off size := rfl
+  have hal := sp_le_alignUp8 off
+  unfold A.freelistDealloc A.tryNew at hr
+  rw [if_neg (by omega)] at hr
+  simp only at hr
+  by_cases h1 : (alignUp 8 off - off) + NODE ≥ size
+  · rw [if_pos h1] at hr
+    simp only at hr
+    left
+    rw [hr]
+    have := incDiscarded_val c a size hro
+    exact ⟨rfl, this.2.1, this.1⟩
+  · rw [if_neg h1] at hr
+    by_cases h2 : size - ((alignUp 8 off - off) + NODE) < a.minSeg
+    · rw [if_pos h2] at hr
+      simp only at hr
+      left
+      rw [hr]
+      have := incDiscarded_val c a size hro
+      exact ⟨rfl, this.2.1, this.1⟩
+    · rw [if_neg h2] at hr
+      simp only at hr
+      right
+      rw [hr]
+      have := incDiscarded_val c { a with free := insertSeg c.kind ⟨alignUp 8 off, size - ((alignUp 8 off - off) + NODE)⟩ a.free } NODE hro
+      refine ⟨rfl, this.1, _, this.2.1, ?_, ?_⟩
+      · exact hal
+      · simp only [Seg.hi, NODE] at *
+        omega
+
+theorem sp_foldl_disc (l : List Seg) (d : Nat) (hd : d < TWO32) :
+    l.foldl (fun d g => (d + g.size) % TWO32) d = (d + (l.map (·.size)).sum) % TWO32 := by
+  induction l generalizing d with
+  | nil => simp only [List.foldl_nil, List.map_nil, List.sum_nil, Nat.add_zero]; rw [Nat.mod_eq_of_lt hd]
+  | cons g rest ih =>
+    simp only [List.foldl_cons, List.map_cons, List.sum_cons]
+    rw [ih _ (Nat.mod_lt _ (by unfold TWO32; omega))]
+    unfold TWO32
+    omega
 
 theorem discardFreelist_spec (c : Cfg) (a : A) (hro : c.ro = false) (hk : c.kind ≠ .none) :
     let total := (a.free.map (·.size)).sum
     a.discardFreelist c = (.ok total, { a with free := [], discarded := (a.discarded + total) % TWO32 }) ∨
     a.discarded ≥ TWO32 := by
-  sorry
+  intro total
+  by_cases hd : a.discarded ≥ TWO32
+  · exact Or.inr hd
+  · left
+    have hf := sp_foldl_disc a.free a.discarded (by omega)
+    unfold A.discardFreelist
+    simp only [hro, Bool.false_eq_true, ↓reduceIte]
+    cases hkk : c.kind with
+    | none => exact absurd hkk hk
+    | opt => simp only [hf, total]
+    | pess => simp only [hf, total]
 
 theorem discardFreelist_ro (c : Cfg) (a : A) (hro : c.ro = true) : a.discardFreelist c = (.error .readOnly, a) := by
-  sorry
+  unfold A.discardFreelist
+  simp [hro]
+
+theorem sp_discardFreelist_free (c : Cfg) (a : A) (hro : c.ro = false) :
+    c.kind = .none ∨ (a.discardFreelist c).2.free = [] := by
+  unfold A.discardFreelist
+  simp only [hro, Bool.false_eq_true, ↓reduceIte]
+  cases hkk : c.kind with
+  | none => exact Or.inl rfl
+  | opt => exact Or.inr rfl
+  | pess => exact Or.inr rfl
 
 /-- after `discard_freelist` only fresh space can serve a request -/
 theorem after_discard_only_fresh (c : Cfg) (a : A) (size : Nat) (hro : c.ro = false) :
     ((a.discardFreelist c).2.slow c size).1 = .error .insufficient := by
-  sorry
+  rcases sp_discardFreelist_free c a hro with hk | hf
+  · rw [none_slow_fails c _ size hk hro]
+  · unfold A.slow
+    simp only [hro, Bool.false_eq_true, ↓reduceIte, hf]
+    cases hkk : c.kind with
+    | none => rfl
+    | opt => rfl
+    | pess => rfl
+
+/-- `discarded` either is unchanged or has been reduced modulo 2^32 -/
+def DOk (a a' : A) : Prop := a'.discarded = a.discarded ∨ a'.discarded < TWO32
+
+theorem DOk.refl (a : A) : DOk a a := Or.inl rfl
+
+theorem DOk.trans {a b d : A} (h1 : DOk a b) (h2 : DOk b d) : DOk a d := by
+  unfold DOk at *
+  rcases h2 with h2 | h2
+  · rw [h2]; exact h1
+  · exact Or.inr h2
+
+theorem DOk_of_disc_eq {a b : A} (h : b.discarded = a.discarded) : DOk a b := Or.inl h
+
+theorem incDiscarded_DOk (c : Cfg) (a : A) (n : Nat) : DOk a (a.incDiscarded c n) := by
+  unfold A.incDiscarded DOk
+  split
+  · exact Or.inl rfl
+  · right
+    exact Nat.mod_lt _ (by unfold TWO32; omega)
+
+theorem tryNew_DOk (c : Cfg) (a : A) (off size : Nat) : DOk a (a.tryNew c off size).2 := by
+  unfold A.tryNew
+  split
+  · exact DOk.refl a
+  · simp only
+    split
+    · exact incDiscarded_DOk c a size
+    · split
+      · exact incDiscarded_DOk c a size
+      · exact DOk.refl a
+
+theorem freelistDealloc_DOk (c : Cfg) (a : A) (off size : Nat) : DOk a (a.freelistDealloc c off size).2 := by
+  unfold A.freelistDealloc
+  have h := tryNew_DOk c a off size
+  rcases hr : a.tryNew c off size with ⟨_ | seg, a1⟩ <;> rw [hr] at h
+  · exact h
+  · exact h.trans ((DOk_of_disc_eq (a := a1) rfl).trans (incDiscarded_DOk c _ NODE))
+
+theorem dealloc_DOk (c : Cfg) (a : A) (off size : Nat) : DOk a (a.dealloc c off size).2 := by
+  unfold A.dealloc
+  split
+  · exact DOk_of_disc_eq rfl
+  · split
+    · exact incDiscarded_DOk c a size
+    · exact freelistDealloc_DOk c a off size
+
+theorem finishSlow_DOk (c : Cfg) (a : A) (g : Seg) (size : Nat) : DOk a (a.finishSlow c g size).2 := by
+  unfold A.finishSlow
+  simp only
+  split
+  · exact freelistDealloc_DOk c a _ _
+  · exact DOk.refl a
+
+theorem slow_DOk (c : Cfg) (a : A) (size : Nat) : DOk a (a.slow c size).2 := by
+  unfold A.slow
+  split
+  · exact DOk.refl a
+  · split
+    · exact DOk.refl a
+    · split
+      · exact DOk.refl a
+      · split
+        · exact DOk.refl a
+        · rename_i g rest _ _
+          exact (DOk_of_disc_eq (a := a) (b := { a with free := rest }) rfl).trans (finishSlow_DOk c _ g size)
+    · split
+      · exact DOk.refl a
+      · rename_i g rest _
+        exact (DOk_of_disc_eq (a := a) (b := { a with free := rest }) rfl).trans (finishSlow_DOk c _ g size)
+
+theorem slowEntry_DOk (c : Cfg) (a : A) (size : Nat) (post : Meta → Meta) : DOk a (a.slowEntry c size post).2 := by
+  unfold A.slowEntry
+  have h := slow_DOk c a size
+  rcases hr : a.slow c size with ⟨_ | m, a1⟩ <;> rw [hr] at h <;> exact h
+
+theorem allocBytes_DOk (c : Cfg) (a : A) (n : Nat) : DOk a (a.allocBytes c n).2 := by
+  unfold A.allocBytes
+  split
+  · exact DOk.refl a
+  · split
+    · exact DOk.refl a
+    · split
+      · exact DOk_of_disc_eq rfl
+      · exact slowEntry_DOk c a _ _
+
+theorem allocAligned_DOk (c : Cfg) (a : A) (ts ta ex : Nat) : DOk a (a.allocAligned c ts ta ex).2 := by
+  unfold A.allocAligned
+  split
+  · exact DOk.refl a
+  · split
+    · exact allocBytes_DOk c a ex
+    · simp only
+      split
+      · exact DOk_of_disc_eq rfl
+      · split
+        · exact slowEntry_DOk c a _ _
+        · exact DOk.refl a
+
+theorem allocT_DOk (c : Cfg) (a : A) (ts ta : Nat) : DOk a (a.allocT c ts ta).2 := by
+  unfold A.allocT
+  split
+  · exact DOk.refl a
+  · split
+    · exact DOk.refl a
+    · simp only
+      split
+      · exact DOk_of_disc_eq rfl
+      · exact slowEntry_DOk c a _ _
+
+theorem foldl_DOk (ro : Bool) (l : List Seg) (d : Nat) :
+    l.foldl (fun d g => if ro then d else (d + g.size) % TWO32) d = d ∨
+    l.foldl (fun d g => if ro then d else (d + g.size) % TWO32) d < TWO32 := by
+  induction l generalizing d with
+  | nil => exact Or.inl rfl
+  | cons g rest ih =>
+    simp only [List.foldl_cons]
+    cases ro with
+    | true => simpa using ih d
+    | false =>
+      rcases ih ((d + g.size) % TWO32) with h | h
+      · right
+        simp only [Bool.false_eq_true, ↓reduceIte] at h ⊢
+        rw [h]
+        exact Nat.mod_lt _ (by unfold TWO32; omega)
+      · exact Or.inr h
+
+theorem discardFreelist_DOk (c : Cfg) (a : A) : DOk a (a.discardFreelist c).2 := by
+  unfold A.discardFreelist
+  split
+  · exact DOk.refl a
+  · split
+    · exact DOk.refl a
+    · have := foldl_DOk false a.free a.discarded
+      simpa [DOk] using this
+
+theorem step_DOk (c : Cfg) (h : HState) (op : HOp) : DOk h.a (h.step c op).a := by
+  cases op with
+  | allocBytes n =>
+    simp only [HState.step]
+    have := allocBytes_DOk c h.a n
+    split <;> simp_all
+  | allocAligned ts ta ex =>
+    simp only [HState.step]
+    have := allocAligned_DOk c h.a ts ta ex
+    split <;> simp_all
+  | allocT ts ta =>
+    simp only [HState.step]
+    have := allocT_DOk c h.a ts ta
+    split <;> simp_all
+  | release i =>
+    simp only [HState.step]
+    split
+    · exact DOk.refl _
+    · exact dealloc_DOk c h.a _ _
+  | detach i =>
+    simp only [HState.step]
+    split <;> exact DOk.refl _
+  | setMinSeg n =>
+    simp only [HState.step]
+    split
+    · exact DOk.refl _
+    · exact DOk_of_disc_eq rfl
+  | incDiscarded n => exact incDiscarded_DOk c h.a n
+  | discardFreelist => exact discardFreelist_DOk c h.a
+
+theorem sp_mod_reach (x y : Nat) (hx : x < TWO32) : ∃ d, x = (y + d) % TWO32 := by
+  refine ⟨x + (TWO32 - y % TWO32), ?_⟩
+  unfold TWO32 at *
+  omega
 
 /-- every step of a history changes `discarded` by adding a non-negative amount modulo 2^32 -/
 theorem step_discarded (c : Cfg) (h : HState) (op : HOp) :
     ∃ d, (h.step c op).a.discarded = (h.a.discarded + d) % TWO32 ∨ (h.step c op).a.discarded = h.a.discarded := by
-  sorry
+  rcases step_DOk c h op with he | hlt
+  · exact ⟨0, Or.inr he⟩
+  · obtain ⟨d, hd⟩ := sp_mod_reach _ h.a.discarded hlt
+    exact ⟨d, Or.inl hd⟩
 
 end Rarena
